@@ -112,14 +112,20 @@ func genLogEx(k *kernel.K, id, conn int, last bool, odd bool) *logEx {
 	r := &ReqSpec{ID: id, Abs: true, Host: "origin-a.test", Path: fmt.Sprintf("/x%d/log", id)}
 	// query string and cookies (HAR fields)
 	for i, n := 0, w.Draw(3); i < n; i++ {
-		p := [2]string{[]string{"q", "a", "q"}[w.Draw(3)], []string{"1", "two words", "%", ""}[w.Draw(4)]}
+		p := [2]string{[]string{"q", "a", "q"}[w.Draw(3)], []string{"1", "two words", "%", "", "text/html;q=0.9"}[w.Pick([]int{3, 3, 3, 3, 1})]}
 		e.queryPairs = append(e.queryPairs, p)
 	}
 	if len(e.queryPairs) > 0 {
 		r.HasQ = true
 		var parts []string
 		for _, p := range e.queryPairs {
-			parts = append(parts, url.QueryEscape(p[0])+"="+url.QueryEscape(p[1]))
+			v := url.QueryEscape(p[1])
+			if strings.Contains(p[1], ";") {
+				// ';' and '/' are legal in a query as they are (RFC 3986: pchar / "/" / "?")
+				v = strings.NewReplacer("%3B", ";", "%2F", "/").Replace(v)
+				k.Probe("query_value_with_semicolon")
+			}
+			parts = append(parts, url.QueryEscape(p[0])+"="+v)
 		}
 		r.Query = strings.Join(parts, "&")
 	}
